@@ -40,25 +40,25 @@ def el_of_z(z: int) -> str:
     return SYMBOLS[z - 1] if 1 <= z <= 118 else f"?Z{z}"
 
 
-def coord_float(c) -> float:
-    """[u, s] -> (10u + s) * 1e-7 Angstrom, the nearest double."""
-    return float(Decimal(10 * int(c["u"]) + int(c["s"])).scaleb(-7))
+def coord_float(c, world=1) -> float:
+    """[u, s] -> (10u + s) * 1e-7 units of `world` Angstrom (the object's length scale), the nearest double."""
+    return float(Decimal(10 * int(c["u"]) + int(c["s"])).scaleb(-7) * world)
 
 
-def coord_abs(x: float):
-    """Inverse of coord_float on its image; other doubles are reported at 1e-7 A resolution."""
+def coord_abs(x: float, world=1):
+    """Inverse of coord_float on its image; other doubles are reported at 1e-7 scale units resolution."""
     if not math.isfinite(x):
         return {"u": str(x), "s": 0}
-    v = int((Decimal(x).scaleb(7)).to_integral_value(ROUND_HALF_EVEN))
+    v = int(((Decimal(x) / world).scaleb(7)).to_integral_value(ROUND_HALF_EVEN))
     u = (v + 5) // 10
     return {"u": u, "s": v - 10 * u}
 
 
-def to_units(x: float, res: int):
-    """A loaded coordinate (Angstrom) as an integer number of `res` micro-Angstrom."""
+def to_units(x: float, res: int, world=1):
+    """A loaded coordinate (Angstrom) as an integer number of `res` micro-units of the length scale `world` A."""
     if not math.isfinite(x):
         return str(x)
-    return int((Decimal(x) * 1000000 / res).to_integral_value(ROUND_HALF_EVEN))
+    return int((Decimal(x) / world * 1000000 / res).to_integral_value(ROUND_HALF_EVEN))
 
 
 def dec_str(t: int, d: int) -> str:
@@ -88,10 +88,10 @@ class Lab:
         return sorted(DistanceUnit.__members__)
 
     # ---- interpretation ------------------------------------------------------------------------------
-    def _one(self, cls, frame, name):
+    def _one(self, cls, frame, name, world=1):
         import numpy as np
         n = len(frame)
-        xyz = np.array([[coord_float(a["x"]), coord_float(a["y"]), coord_float(a["z"])] for a in frame],
+        xyz = np.array([[coord_float(a["x"], world), coord_float(a["y"], world), coord_float(a["z"], world)] for a in frame],
                        dtype=float).reshape(n, 3)
         g = cls(n_atoms=n, coords=xyz, name=name)
         for atom, a in zip(g.atoms, frame):
@@ -102,11 +102,12 @@ class Lab:
 
     def build(self, g, name="mbv"):
         """g = {cls, frames}: a real object of that class holding those frames."""
+        w = g.get("world", 1)
         if g["cls"] == ENS:
-            mols = [self._one(self.ml.Molecule, f, name) for f in g["frames"]]
+            mols = [self._one(self.ml.Molecule, f, name, w) for f in g["frames"]]
             return self.ml.ConformerEnsemble(mols)
         assert len(g["frames"]) == 1
-        return self._one(self.cls[g["cls"]], g["frames"][0], name)
+        return self._one(self.cls[g["cls"]], g["frames"][0], name, w)
 
     def render_xyz(self, lines, dec, comment="written by another program") -> str:
         out = []
@@ -137,25 +138,27 @@ class Lab:
     def _els(self, obj):
         return [el_of_z(a.element.z if hasattr(a.element, "z") else a.element.value) for a in obj.atoms]
 
-    def abstract_obj(self, obj):
-        """In-memory object -> {cls, frames} with [u, s] coordinates (public accessors only)."""
+    def abstract_obj(self, obj, world=1):
+        """In-memory object -> {cls, frames, world} with [u, s] coordinates in the length scale `world` (public
+        accessors only)."""
+        ca = lambda v: coord_abs(float(v), world)
         cn = type(obj).__name__
         els = list(zip(self._els(obj), ["dummy" if a.atype == self.AtomType.Dummy else "regular" for a in obj.atoms]))
         if cn == ENS:
-            frames = [[{"el": e, "ty": t, "x": coord_abs(float(r[0])), "y": coord_abs(float(r[1])), "z": coord_abs(float(r[2]))}
+            frames = [[{"el": e, "ty": t, "x": ca(r[0]), "y": ca(r[1]), "z": ca(r[2])}
                        for (e, t), r in zip(els, conf)] for conf in obj.coords]
         else:
-            frames = [[{"el": e, "ty": t, "x": coord_abs(float(r[0])), "y": coord_abs(float(r[1])), "z": coord_abs(float(r[2]))}
+            frames = [[{"el": e, "ty": t, "x": ca(r[0]), "y": ca(r[1]), "z": ca(r[2])}
                        for (e, t), r in zip(els, obj.coords)]]
-        return {"cls": cn, "frames": frames}
+        return {"cls": cn, "frames": frames, "world": world}
 
-    def abstract_loaded(self, res_obj, res: int):
+    def abstract_loaded(self, res_obj, res: int, world=1):
         """Result of a load call -> (ret, class name, frames of [el, x, y, z] in units of res micro-A)."""
         def geom(o, coords):
             els = self._els(o)
             if len(els) != len(coords):
                 return [["?misaligned", len(els), len(coords), 0]]
-            return [[e, to_units(float(r[0]), res), to_units(float(r[1]), res), to_units(float(r[2]), res)]
+            return [[e, to_units(float(r[0]), res, world), to_units(float(r[1]), res, world), to_units(float(r[2]), res, world)]
                     for e, r in zip(els, coords)]
         if isinstance(res_obj, list):
             names = sorted({type(o).__name__ for o in res_obj})
@@ -165,9 +168,9 @@ class Lab:
             return "ensemble", cn, [geom(res_obj, c) for c in res_obj.coords]
         return "object", cn, [geom(res_obj, res_obj.coords)]
 
-    def tokenize_xyz(self, text: str, dec: int | None):
+    def tokenize_xyz(self, text: str, dec: int | None, world=1):
         """Independent positional tokenizer of xyz text.  Returns (lines, observed decimals).  Coordinates
-        are integers in units of 10^-dec (dec=None: the decimals found in the text)."""
+        are integers in units of 10^-dec of the length scale `world` A (dec=None: the decimals found in the text)."""
         raw = text.split("\n")
         if raw and raw[-1] == "":
             raw.pop()
@@ -190,7 +193,7 @@ class Lab:
                 return "?" + c
             if not v.is_finite():
                 return str(v)
-            w = v.scaleb(d)
+            w = (v / world).scaleb(d) if world != 1 else v.scaleb(d)
             if w != w.to_integral_value():
                 if d >= 6:                       # finer than the model's resolution: look at it at 1e-6
                     return int(w.to_integral_value(ROUND_HALF_EVEN))
@@ -234,7 +237,16 @@ class Lab:
         else:
             raise AssertionError(route)
 
-    def load(self, text: str, fmt: str, cls: str, entry: str, units: str, res: int):
+    def dump_conformer(self, ens, i: int, route: str, stream: io.StringIO):
+        conf = ens[i - 1]                                    # the Conformer view
+        if route == "dumps":
+            stream.write(conf.dumps_xyz())
+        elif route == "dump":
+            conf.dump_xyz(stream)
+        else:
+            raise AssertionError(route)
+
+    def load(self, text: str, fmt: str, cls: str, entry: str, units: str, res: int, world=1):
         """cls.<entry>_<fmt>(..., source_units=units) -> outcome dict (out, ret, cls, val)."""
         k = self.cls[cls]
         base = {"load_path": "load", "load_stream": "load", "loads": "loads", "load_all_path": "load_all",
@@ -254,7 +266,7 @@ class Lab:
                 r = fn(text, source_units=units)
         except Exception as e:
             return {"out": "error", "exc": type(e).__name__}
-        ret, cn, val = self.abstract_loaded(r, res)
+        ret, cn, val = self.abstract_loaded(r, res, world)
         return {"out": "ok", "ret": ret, "cls": cn, "val": val}
 
 
@@ -269,6 +281,7 @@ class XyzAdapter:
         self.fmt = "none"
         self.foreign = False
         self.changed = True
+        self.world = 1
 
     def cleanup(self):
         self.obj = None
@@ -278,17 +291,21 @@ class XyzAdapter:
         self.changed = a != "load"
         if a == "make":
             self.obj = self.lab.build(act["g"])
+            self.world = act["g"].get("world", 1)
             return {"out": "ok"}
-        if a == "dump":
-            self.lab.dump(self.obj, act["route"], self.stream)
+        if a in ("dump", "dumpconf"):
+            if a == "dump":
+                self.lab.dump(self.obj, act["route"], self.stream)
+            else:
+                self.lab.dump_conformer(self.obj, act["i"], act["route"], self.stream)
             self.text, self.fmt, self.obj = self.stream.getvalue(), "xyz", None
             return {"out": "ok"}
         if a == "foreign":
-            self.fmt, self.foreign = act["fmt"], True
+            self.fmt, self.foreign, self.world = act["fmt"], True, 1
             self.text = (self.lab.render_xyz if act["fmt"] == "xyz" else self.lab.render_mol2)(act["lines"], act["dec"])
             return {"out": "ok"}
         if a == "load":
-            o = self.lab.load(self.text, act["fmt"], act["cls"], act["entry"], act["units"], act["res"])
+            o = self.lab.load(self.text, act["fmt"], act["cls"], act["entry"], act["units"], act["res"], act.get("world", 1))
             o.pop("exc", None)
             return o
         raise AssertionError(f"unknown action {a}")
@@ -296,13 +313,13 @@ class XyzAdapter:
     def observe(self):
         if not self.changed:
             return None
-        mem = self.lab.abstract_obj(self.obj) if self.obj is not None else {"cls": "none", "frames": []}
+        mem = self.lab.abstract_obj(self.obj, self.world) if self.obj is not None else {"cls": "none", "frames": []}
         if self.fmt == "none":
             text = {"fmt": "none", "lines": []}
         elif self.foreign:
             text = None                                   # rendered by the harness itself: nothing of molli to observe
         else:
-            text = {"fmt": "xyz", "lines": self.lab.tokenize_xyz(self.text, self.dec)[0]}
+            text = {"fmt": "xyz", "lines": self.lab.tokenize_xyz(self.text, self.dec, self.world)[0]}
         return {"mem": mem, "text": text}
 
 
